@@ -672,6 +672,13 @@ class _PairsClassifierMixin(BaseMetricLearner, ClassifierMixin):
       cum_tn_inverted = stable_cumsum(y_ordered[::-1] == -1)
       cum_tn = np.concatenate([[0.], cum_tn_inverted])[::-1]
       cum_accuracy = (cum_tp + cum_tn) / n_samples
+      # a threshold cannot separate pairs that have the same score: the only
+      # admissible cuts are after the last pair of a group of tied scores
+      # (and before the first pair, which rejects all points)
+      is_cut = np.concatenate([[True],
+                               scores_sorted[1:-1] != scores_sorted[2:],
+                               [True]])
+      cum_accuracy[~is_cut] = -np.inf
       imax = np.argmax(cum_accuracy)
       # we set the threshold to the lowest accepted score
       # note: we are working with negative distances but we want the threshold
@@ -706,9 +713,11 @@ class _PairsClassifierMixin(BaseMetricLearner, ClassifierMixin):
       # (see a more detailed discussion in test_calibrate_threshold_extreme)
       return self
 
+    # (all the thresholds are needed: the points of the ROC curve that
+    # `drop_intermediate` would remove can be the best admissible ones)
     fpr, tpr, thresholds = roc_curve(y_valid,
                                      self.decision_function(pairs_valid),
-                                     pos_label=1)
+                                     pos_label=1, drop_intermediate=False)
     # here the thresholds are decreasing
     fpr, tpr, thresholds = fpr, tpr, thresholds
 
